@@ -339,7 +339,13 @@ def pdom_release(ctx, prog):
             ctx.fail(R, "unlink:each", "unlink_disallowed_observers no longer drains the queue", fn=UL, kind="anchor")
 
 
-for _f, _id in ((wmc_user, "C05.WMC-user"), (guard_insert, "C05.GUARD-insert"), (pdom_release, "C05.PDOM-release")):
+def bracket(ctx, prog):
+    from .c11 import dom_bracket
+    dom_bracket(ctx, prog, "C05.DOM-bracket")
+
+
+for _f, _id in ((wmc_user, "C05.WMC-user"), (guard_insert, "C05.GUARD-insert"), (pdom_release, "C05.PDOM-release"),
+                (bracket, "C05.DOM-bracket")):
     _f.rule_id = _id
 
-RULES = [wmc_user, guard_insert, pdom_release]
+RULES = [wmc_user, guard_insert, pdom_release, bracket]
